@@ -13,11 +13,8 @@ From Coq Require Import List ZArith Arith Permutation Sorted.
 From LF Require Import Conc Hazard HazardProofs.
 Import ListNotations.
 
-Definition good_sort (sort : list nat -> list nat) : Prop :=
-  (forall l, Permutation l (sort l)) /\ (forall l, Sorted le (sort l)).
-
-Lemma isort_good : good_sort isort.
-Proof. split; [exact isort_perm | exact isort_sorted]. Qed.
+(* good_sort sort := (forall l, Permutation l (sort l)) /\ (forall l, Sorted le (sort l))
+   (HazardProofs.v, with isort_good : good_sort isort) *)
 
 (* [held (thr s u) i = n <> 0]: thread u wrote n into its slot i
    (hazard_pointer_using), then re-read the source cell and found n again, and
